@@ -32,6 +32,7 @@ type RigConfig struct {
 	HideNode bool `json:"hide_node_merger"`
 	Hint     bool `json:"id_to_type_hint"`
 	Cached   bool `json:"cached_planner"`
+	RealHTTP bool `json:"real_multiop_queryer"` // MultiOpQueryer + HTTP bridge between executor and fakes
 }
 
 func (c RigConfig) String() string {
@@ -48,6 +49,7 @@ type Rig struct {
 	GW       *pebbles.Gateway
 	Ref      *fake.Evaluator
 	Cfg      RigConfig
+	Bridges  map[string]*fake.Bridge
 }
 
 // nopQueryer stands in for the pseudo-URL of introspection steps.
@@ -85,8 +87,10 @@ func NewRig(w *gen.World, cfg RigConfig) (*Rig, error) {
 	if err != nil {
 		return nil, err
 	}
+	r.Bridges = map[string]*fake.Bridge{}
 	for i, u := range r.URLs {
 		r.Services[u] = fake.NewService(u, own[i], w.Store)
+		r.Bridges[u] = &fake.Bridge{Svc: r.Services[u], ErrCall: -1}
 	}
 	var m merger.Merger = merger.ExtendMergerFunc(nil)
 	if cfg.HideNode {
@@ -112,6 +116,9 @@ func NewRig(w *gen.World, cfg RigConfig) (*Rig, error) {
 		pebbles.WithMerger(m),
 		pebbles.WithQueryerFactory(func(ctx *planner.PlanningContext, url string) queryer.Queryer {
 			if s, ok := r.Services[url]; ok {
+				if cfg.RealHTTP {
+					return queryer.NewMultiOpQueryer(url, 3000).WithHTTPClient(&http.Client{Transport: r.Bridges[url]})
+				}
 				return s
 			}
 			return nopQueryer{url}
